@@ -17,6 +17,8 @@ ASSUME TLCSet(2, [t \in 1..Len(Traces) |-> 0])
 ASSUME TLCSet(5, [t \in 1..Len(Traces) |-> {}])
 
 \* token -> concrete text, per trace (the harness chose which real option plays which role)
+\* the batch of traces recorded against a Tor whose second list option has no built-in default (NODEF in the environment)
+TNoDef == IF "NODEF" \in DOMAIN IOEnv THEN {"l2"} ELSE {}
 Conc(o, tok) == IF tok = "" THEN "" ELSE Traces[tid].conc[o][tok]
 ConcSeq(o, s) == [i \in 1..Len(s) |-> Conc(o, s[i])]
 ConcPairs(ps) == [i \in 1..Len(ps) |-> <<Traces[tid].names[ps[i][1]], Conc(ps[i][1], ps[i][2])>>]
